@@ -3,9 +3,13 @@
 //! end-to-end counters plus the recorded linearised event trace; the trace is then
 //! validated against the Coq LTS by `ocaml/run_c29.ml`.
 //!
-//! Case line (13 fields):
+//! Case line (14 fields):
 //!   nperm linger_us progs task_max_us seed dly(prob,max_us) cs(prob,max_us)
-//!   sd_delay_us q_delay_us(-1 = no ThreadPool::shut_down) panic_pct n_awaiters n_gsd aw_delay_us
+//!   sd_delay_us q_delay_us(-1 = no ThreadPool::shut_down) panic_pct n_awaiters n_gsd aw_delay_us q_mode
+//! q_mode: 0 = ThreadPool::shut_down is called by the first shutdown thread before its
+//! ThreadGroup::shut_down; 1 = by a thread of its own at q_delay (before, during or after
+//! the group's shutdown); 2 = by two threads of their own (the second call finds the pool
+//! already removed).
 //! progs: comma separated programs of ops `b` (submit) / `s` (submit_or_spawn), each
 //! optionally followed by digits = sleep (x100us) after the op.
 //!
@@ -98,6 +102,7 @@ mod real {
         let n_aw: usize = f[10].parse().unwrap();
         let n_gsd: usize = f[11].parse().unwrap();
         let aw_delay: u64 = f[12].parse().unwrap();
+        let q_mode: u64 = if q_delay >= 0 { f[13].parse().unwrap() } else { 0 };
 
         let rng = Arc::new(Rng { seed, ctr: AtomicU64::new(0) });
         let rng_s = rng.clone();
@@ -132,6 +137,7 @@ mod real {
         // any thread can spawn (and number) an auxiliary worker
         let sub_tids: Vec<u64> = progs.iter().map(|_| verif::fresh_tid()).collect();
         let q_tid = if q_delay >= 0 { Some(verif::fresh_tid()) } else { None };
+        let q2_tid = if q_delay >= 0 && q_mode == 2 { Some(verif::fresh_tid()) } else { None };
         let g_tids: Vec<u64> = (0..n_gsd).map(|_| verif::fresh_tid()).collect();
         let aw_tids: Vec<u64> = (0..n_aw).map(|_| verif::fresh_tid()).collect();
         let mut base = 0usize;
@@ -177,6 +183,7 @@ mod real {
         {
             let (group, pool, pool_down, first_sd) = (group.clone(), pool.clone(), pool_down.clone(), first_sd.clone());
             let g0 = g_tids[0];
+            let q_tid = if q_mode == 0 { q_tid } else { None };
             joins.push(thread::spawn(move || {
                 if let Some(q) = q_tid {
                     sleep_until(t0, q_delay as u64);
@@ -190,6 +197,17 @@ mod real {
                 group.shut_down();
                 pool_down.store(true, Ordering::SeqCst);
             }));
+        }
+        if q_mode != 0 {
+            for (n, q) in [q_tid, q2_tid].into_iter().flatten().enumerate() {
+                let (pool, pool_down) = (pool.clone(), pool_down.clone());
+                joins.push(thread::spawn(move || {
+                    sleep_until(t0, q_delay as u64 + 100 * n as u64);
+                    verif::set_tid(q);
+                    pool.shut_down();
+                    pool_down.store(true, Ordering::SeqCst);
+                }));
+            }
         }
         for (n, &g) in g_tids.iter().enumerate().skip(1) {
             let (group, first_sd) = (group.clone(), first_sd.clone());
